@@ -354,5 +354,5 @@ func TestC01Sparse(t *testing.T) {
 		run(rp, t.Fatalf)
 		return
 	}
-	rapid.Check(t, func(rt *rapid.T) { run(genSparseCase(rt), rt.Fatalf) })
+	checkBudget(t, func(rt *rapid.T) { run(genSparseCase(rt), rt.Fatalf) })
 }
